@@ -600,7 +600,7 @@ class FixedKeyDictNode(MappingNode, SequenceNode[Dict[LeafNode, KeyValuePairNode
         return item in self._children
 
     def _child_edits(self, node: MappingNode) -> Iterator[Edit]:
-        unshared_kvps = set()
+        unshared_kvps = []
         for key, kvp in self._children.items():
             if key in node:
                 other_kvp = node[key]
@@ -609,7 +609,7 @@ class FixedKeyDictNode(MappingNode, SequenceNode[Dict[LeafNode, KeyValuePairNode
                 else:
                     yield KeyValuePairEdit(kvp, other_kvp)
             else:
-                unshared_kvps.add(kvp)
+                unshared_kvps.append(kvp)
         for kvp in unshared_kvps:
             yield Remove(to_remove=kvp, remove_from=self)
         for kvp in node:
